@@ -2,7 +2,7 @@
    SpecAllErase.v / SpecAllPanic.v through fetching, prefixes and interrupt acceptance:
    * C10: the step does not depend on the fields of the record that are not machine state (HALT, BreakPoints)
    * C12: the step never logs EvPanic (a Go run-time panic), for the user's memory and under the mode-0 overlay *)
-From Z80V Require Export Proofs.SpecFacts Proofs.SpecAll Proofs.SpecAllErase Proofs.SpecAllPanic.
+From Z80V Require Export Proofs.SpecFacts Proofs.SpecAll Proofs.SpecAllErase Proofs.SpecAllPanic Proofs.WFStep.
 
 (* ------------------------------------------------------------------ erase *)
 Lemma erase_idem cpu : erase (erase cpu) = erase cpu.
@@ -76,7 +76,6 @@ Proof.
   - rewrite !erase_s_Interrupt. congruence.
   - apply step_instr_erase.
 Qed.
-Fixpoint spec_iter u (n : nat) (cpu : CPU) : CPU := match n with O => cpu | S k => spec_iter u k (spec_step u cpu) end.
 Theorem spec_iter_erase u n : forall cpu, erase (spec_iter u n (erase cpu)) = erase (spec_iter u n cpu).
 Proof.
   induction n as [|n IH]; intros cpu; cbn [spec_iter]; [reflexivity|].
@@ -178,4 +177,58 @@ Proof.
     + destruct p; try (apply step_instr_np; exact Hs). change (np (s_Interrupt ?c ?q)) with (np c).
       destruct (Interrupt_Data irq); [reflexivity | apply accept_im2_np; exact Hs].
     + change (np (s_Interrupt ?c ?q)) with (np c). apply accept_im1_np.
+Qed.
+
+(* ------------------------------------------------------------------ the memory object is never replaced *)
+Lemma exec_mem u m i cpu : g_Memory (exec u m i cpu) = g_Memory cpu.
+Proof. exact (proj1 (proj2 (exec_keeps_env u m i cpu))). Qed.
+Lemma exec_idxcb_mem u m d i cpu : g_Memory (exec_idxcb u m d i cpu) = g_Memory cpu.
+Proof. exact (proj1 (proj2 (exec_idxcb_keeps_env u m d i cpu))). Qed.
+Lemma fetch8_mem cpu : g_Memory (fst (fetch8 cpu)) = g_Memory cpu.
+Proof. cbv beta iota zeta delta [fetch8 rd mem_get]. cbv_struct. reflexivity. Qed.
+Lemma fetch_m1_mem cpu : g_Memory (fst (fetch_m1 cpu)) = g_Memory cpu.
+Proof. cbv beta iota zeta delta [fetch_m1 fetch8 rd mem_get]. cbv_struct. reflexivity. Qed.
+Lemma exec_idx_mem u m c cpu : g_Memory (exec_idx u m c cpu) = g_Memory cpu.
+Proof.
+  unfold exec_idx. destruct (decode_idx c) eqn:E; try apply exec_mem.
+  pose proof (fetch8_mem cpu) as M1. destruct (fetch8 cpu) as [cpu1 d]. cbn [fst snd] in *.
+  destruct (u_cbidx_ticks u).
+  - pose proof (fetch_m1_mem cpu1) as M2. destruct (fetch_m1 cpu1) as [cpu2 c3]. cbn [fst snd] in *. rewrite exec_idxcb_mem. congruence.
+  - pose proof (fetch8_mem cpu1) as M2. destruct (fetch8 cpu1) as [cpu2 c3]. cbn [fst snd] in *. rewrite exec_idxcb_mem. congruence.
+Qed.
+Lemma step_idx_mem u m cpu : g_Memory (step_idx u m cpu) = g_Memory cpu.
+Proof.
+  unfold step_idx. pose proof (fetch_m1_mem cpu) as M1. destruct (fetch_m1 cpu) as [cpu1 c1]. cbn [fst snd] in *.
+  rewrite exec_idx_mem. exact M1.
+Qed.
+Lemma step_instr_mem u cpu : g_Memory (step_instr u cpu) = g_Memory cpu.
+Proof.
+  unfold step_instr. pose proof (fetch_m1_mem cpu) as M1. destruct (fetch_m1 cpu) as [cpu1 c0]. cbn [fst snd] in *.
+  destruct (decode_main c0) eqn:E; try (rewrite exec_mem; exact M1); try (rewrite step_idx_mem; exact M1).
+  - pose proof (fetch_m1_mem cpu1) as M2. destruct (fetch_m1 cpu1) as [cpu2 c1]. cbn [fst snd] in *. rewrite exec_mem. congruence.
+  - pose proof (fetch_m1_mem cpu1) as M2. destruct (fetch_m1 cpu1) as [cpu2 c1]. cbn [fst snd] in *. rewrite exec_mem. congruence.
+Qed.
+Theorem spec_step_mem u cpu : g_Memory (spec_step u cpu) = g_Memory cpu.
+Proof.
+  unfold spec_step. destruct (g_Interrupt cpu) as [irq|]; [|apply step_instr_mem].
+  unfold try_interrupt.
+  destruct (Interrupt_Type irq =? NMI_type).
+  { cbv beta iota zeta delta [accept_nmi push16_lowfirst wr16 wr mem_set]. cbv_struct. reflexivity. }
+  destruct (negb (g_IFF1 cpu)); [apply step_instr_mem|].
+  destruct (g_IM cpu) as [|p|p]; [ | | apply step_instr_mem].
+  - destruct (Interrupt_Data irq); reflexivity.
+  - destruct p as [p|p|]; try apply step_instr_mem.
+    + destruct p; try apply step_instr_mem. destruct (Interrupt_Data irq); [reflexivity|].
+      cbv beta iota zeta delta [accept_im2 disable_both push16_lowfirst wr16 rd16 rd wr mem_get mem_set]. cbv_struct. reflexivity.
+    + cbv beta iota zeta delta [accept_im1 disable_both push16_lowfirst wr16 wr mem_set]. cbv_struct. reflexivity.
+Qed.
+Lemma spec_step_pc16 u cpu : WF cpu -> is16 (g_PC (spec_step u cpu)).
+Proof. intros H. pose proof (spec_step_wf u cpu H) as H'. wf_open H'. assumption. Qed.
+
+(* any number of steps from a state that uses the user's memory: no panic, ever *)
+Theorem spec_iter_no_panic u n : forall cpu, WF cpu -> g_Memory cpu = UserMem -> np (spec_iter u n cpu) = np cpu.
+Proof.
+  induction n as [|n IH]; intros cpu H Hm; cbn [spec_iter]; [reflexivity|].
+  rewrite IH; [| apply spec_step_wf, H | rewrite spec_step_mem; exact Hm].
+  apply spec_step_no_panic; [wf_open H; assumption | rewrite Hm; apply user_safe].
 Qed.
